@@ -116,7 +116,10 @@ impl Sub<Duration> for Duration {
 }
 
 fn fraction_to_nanosec(fraction: u32) -> u32 {
-    ((fraction as u64 * 1_000_000_000) / (1u64 << 32)) as u32
+    // Round to the nearest nanosecond (as nanosec_to_fraction rounds to the nearest fraction) so that the
+    // conversion nanosec -> fraction -> nanosec is the identity
+    let nanosec = (fraction as u64 * 1_000_000_000 + (1u64 << 31)) >> 32;
+    core::cmp::min(nanosec, 999_999_999) as u32
 }
 
 fn nanosec_to_fraction(nanosec: u32) -> u32 {
